@@ -58,6 +58,14 @@ pub fn open_as_container_pack(reader: Reader) -> Result<ContainerPack> {
             buffer_reader.reverse();
             let end_reader: Reader = buffer_reader.into();
             let pack_header = end_reader.parse_block_at::<PackHeader>(Offset::zero())?;
+            if pack_header.file_size > reader.size() {
+                // The begining of the pack is missing.
+                return Err(format_error!(&format!(
+                    "Pack size ({}) is bigger than the file ({})",
+                    pack_header.file_size,
+                    reader.size()
+                )));
+            }
             let origin = reader.size() - pack_header.file_size;
             (pack_header, origin.into())
         }
